@@ -459,10 +459,10 @@ def r6_pagetree_lexical(ctx, rep):
 
 
 RULES = [
-    RuleSpec("C19.R6", r6_pagetree_lexical, "page-tree locations are lexical joins below page_dir", floor=2),
-    RuleSpec("C19.R1", r1_write_provenance, "every file-system write lands below output_dir/graph_dir", floor=24),
-    RuleSpec("C19.R2", r2_reachability, "no mutation before the refusal or outside the write-out phase", floor=10),
-    RuleSpec("C19.R3", r3_resolved_paths, "refusal works on symlink-resolved, normalised paths", floor=2),
+    RuleSpec("C19.R6", r6_pagetree_lexical, "page-tree locations are lexical joins below page_dir", floor=1),
+    RuleSpec("C19.R1", r1_write_provenance, "every file-system write lands below output_dir/graph_dir", floor=12),
+    RuleSpec("C19.R2", r2_reachability, "no mutation before the refusal or outside the write-out phase", floor=6),
+    RuleSpec("C19.R3", r3_resolved_paths, "refusal works on symlink-resolved, normalised paths", floor=1),
     RuleSpec("C19.R4", r4_no_symlink_preserving_copy, "recursively touched trees contain no symlinks", floor=1),
-    RuleSpec("C19.R5", r5_exclude_output, "output directory excluded from source discovery", floor=2),
+    RuleSpec("C19.R5", r5_exclude_output, "output directory excluded from source discovery", floor=1),
 ]
